@@ -275,6 +275,7 @@ def line_boundary_values():
         yield [ch]
         yield ['a' + ch + 'b', 'cd']
         yield ['a' + ch, 'a']
+        yield ['a', 'a' + ch]
         yield [ch + 'a', 'a']
         for k in (48, 49, 50):
             # 2k runs without the character; inside it adds runs, at the end
